@@ -86,6 +86,22 @@ class LibMixin:
         """the concrete value boxed at this call site (the boxing happened in coerce_args, so it is re-evaluated)"""
         return self.ev(st, argnode)
 
+    def lib_reflect_DeepEqual(self, st, recv, argv, e):
+        """reflect.DeepEqual(x, zero) with zero the zero value of a pointer/interface type: x is nil.  (G0 identifies an
+        interface holding a typed nil pointer with nil; for the node slices this is used on, entries are set to untyped nil.)"""
+        x, y = argv[0], argv[1]
+        def ref(v):
+            if isinstance(v, IfaceV) and isinstance(getattr(v, 'concrete', None), (PtrV, IfaceV)): v = v.concrete
+            return v.ref if isinstance(v, (PtrV, IfaceV)) else None
+        rx, ry = ref(x), ref(y)
+        if rx is None or ry is None:
+            raise Unsupported('reflect.DeepEqual on values that are not references')
+        ryc = z3.simplify(ry)
+        if not (z3.is_int_value(ryc) and ryc.as_long() == 0):
+            raise Unsupported('reflect.DeepEqual against something other than the zero value')
+        self.assumed.add('reflect.DeepEqual(x, zero value) == (x is nil)')
+        return rx == 0
+
     def lib_crypto_sha256_Sum256(self, st, recv, argv, e):
         b = argv[0]
         tid = e['t']
